@@ -74,6 +74,16 @@ pub fn cycle_basis(edges: &[(usize, usize)]) -> Vec<Vec<isize>> {
 
 fn ai(v: &Value) -> i64 { v.as_i64().expect("int") }
 
+/// origins plus near-twins: the first three graphs again with one weight 4e-9 larger (degrees of divergence
+/// closer than 1e-8): results must depend on the origin actually used, however close another one is
+pub fn origins_with_twins(lines: &[Value], max: usize) -> Vec<Origin> {
+    let mut origins = origins_from_lines(lines, max);
+    let twins: Vec<Origin> = origins.iter().take(3).map(|o| { let mut t = o.clone(); t.weights[0] += 4e-9; t.key = format!("{}~twin", o.key); t }).collect();
+    let mut k = 1;
+    for t in twins { origins.insert(k.min(origins.len()), t); k += 2; }
+    origins
+}
+
 pub fn origins_from_lines(lines: &[Value], max: usize) -> Vec<Origin> {
     let mut out = vec![];
     // spread the selection over the whole file (different topologies, loop numbers, D): every k-th line first
